@@ -181,7 +181,7 @@ fn pack_b_impl<const NR: usize, const K_TILE: usize, T: Byte>(
         let meta = PackedBMeta {
             col_sums,
             zero_points: if let Some(zp) = zero_point {
-                std::array::from_fn(|c| i32::from(cast(zp[c])))
+                std::array::from_fn(|c| i32::from(cast(zp[col_panel * NR + c])))
             } else {
                 [i32::from(cast(0)); NR]
             },
@@ -432,7 +432,7 @@ fn pack_a_impl<const MR: usize, const K_TILE: usize, L>(
         let meta = PackedAMeta {
             row_sums,
             zero_points: if let Some(zp) = zero_point {
-                std::array::from_fn(|r| zp[r] as i32)
+                std::array::from_fn(|r| zp[row_tile * MR + r] as i32)
             } else {
                 [0; MR]
             },
@@ -490,6 +490,32 @@ fn pack_a_impl<const MR: usize, const K_TILE: usize, L>(
     }
 
     assert!(out.completed());
+}
+
+/// Return the zero points to use for an `N`-row or `N`-column tile.
+///
+/// If zero points were supplied for the GEMM call (`quant`), these take
+/// precedence over the zero points stored with the packed data. The two differ
+/// if the input was prepacked, as prepacking happens before the quantization
+/// parameters are known.
+///
+/// `quant` contains the zero points for the rows or columns of the tile only.
+/// It may have fewer than `N` entries if this is an edge tile.
+#[inline]
+pub fn tile_zero_points<T: Copy + Into<i32>, const N: usize>(
+    quant: Option<&[T]>,
+    packed: [i32; N],
+) -> [i32; N] {
+    match quant {
+        Some(quant) => {
+            let mut zero_points = [0; N];
+            for (dst, src) in zero_points.iter_mut().zip(quant) {
+                *dst = (*src).into();
+            }
+            zero_points
+        }
+        None => packed,
+    }
 }
 
 /// Extract the packed elements and row sums from a buffer packed by [`pack_a`].
